@@ -44,7 +44,10 @@ def extract():
             raise ExtractError(f"PeerRegistry::{r} does not call self.lock()")
     b = fn_body(imp, "broadcast_each")
     snap = re.findall(r"let\s+(\w+)\s*=\s*self\s*\.\s*peers\s*\(\s*\)\s*;", b)
-    loops = bool(snap) and re.search(r"\bfor\s+\w+\s+in\s+" + re.escape(snap[0]) + r"\s*\{", b) is not None
+    # `for peer in snapshot {`, `… in snapshot.into_iter() {`, `… in snapshot.iter() {`, `… in &snapshot {` are the
+    # same loop; any other adapter on it (take/skip/filter/rev/step_by/…) may leave peers out
+    LOOP_HEAD = r"\bfor\s+\w+\s+in\s+&?\s*%s\s*(\.\s*(into_iter|iter)\s*\(\s*\))?\s*\{"
+    loops = bool(snap) and re.search(LOOP_HEAD % re.escape(snap[0]), b) is not None
     sends = len(re.findall(r"\.send_notify\s*\(", b))
     if sends != 1:
         raise ExtractError(f"broadcast_each: {sends} send_notify call sites")
@@ -66,7 +69,7 @@ GOOD = {
     "aliasPresenceCheckFirst": True, "aliasSameOwnerEarlyReturn": True, "aliasDetachesPrevOwner": True,
     "aliasDetachForm": "retain", "aliasPushForm": "push", "removeDropsPeer": True,
     "removeTakesIndexEntry": True, "removePurgeGuard": "forward_eq_id", "keyForPick": "first",
-    "getByThroughPeers": True,
+    "getByThroughPeers": True, "lockRecoversPoison": True,
 }
 W = r"[A-Za-z_]\w*"
 
@@ -88,7 +91,7 @@ def forms(src, imp, bcast, snap):
 
     f["helperFormat"] = helper_formats(src, imp)      # its own failure falls back as a whole (raises)
     # ---- the send loop of broadcast_each: nothing may skip a peer of the snapshot
-    mloop = re.search(r"\bfor\s+\w+\s+in\s+" + re.escape(snap[0]) + r"\s*\{", bcast) if snap else None
+    mloop = re.search(r"\bfor\s+\w+\s+in\s+&?\s*" + re.escape(snap[0]) + r"\s*(\.\s*(into_iter|iter)\s*\(\s*\))?\s*\{", bcast) if snap else None
     if mloop:
         i = bcast.find("{", mloop.end() - 1)
         loop = bcast[i + 1:match_brace(bcast, i) - 1]
@@ -240,6 +243,16 @@ def forms(src, imp, bcast, snap):
     fact("removePurgeGuard", purge_guard)
     fact("keyForPick", key_pick)
     fact("getByThroughPeers", get_by_form)
+
+    def poison_form():
+        lk = fn_body(imp, "lock")
+        if re.search(r"into_inner\s*\(\s*\)", lk) and re.search(r"self\s*\.\s*inner\s*\.\s*lock\s*\(\s*\)", lk):
+            return True                       # match … Err(p) => p.into_inner() / unwrap_or_else(|e| e.into_inner())
+        if re.search(r"\.\s*lock\s*\(\s*\)\s*\.\s*(unwrap|expect)\s*\(", lk) or re.search(r"Err\s*\([^)]*\)\s*=>\s*(panic!|unreachable!|std::process::abort)", lk):
+            return False                      # a poisoned mutex takes the registry down for good
+        raise ExtractError("lock form")
+
+    fact("lockRecoversPoison", poison_form)
     if unrec:
         f["unrecognised"] = unrec
     return f
@@ -327,6 +340,9 @@ def render(f):
         f"def removePurgeGuard : String := \"{f['removePurgeGuard']}\"",
         f"def keyForPick : String := \"{f['keyForPick']}\"",
         f"def getByThroughPeers : Bool := {b(f['getByThroughPeers'])}",
+        "",
+        "/-- `lock()` recovers the guard from a poisoned mutex (a caller that panicked while holding it) -/",
+        f"def lockRecoversPoison : Bool := {b(f['lockRecoversPoison'])}",
         "",
         "end Repe.Gen.Peers", ""])
 
